@@ -32,19 +32,20 @@ def run_field(cs):
     exact = True
 
     def back(x):
+        # twice the value, so that half units are integers
         nonlocal exact
-        y = float(x) / sc
+        y = 2 * float(x) / sc
         if y != round(y) or abs(y) > 2e9:
             exact = False
             return 0
         return int(round(y))
-    tr['var1'] = back(var1)
+    tr['var1x2'] = back(var1)
     tr['ksum'] = int(ksum)
     tr['prec_ok'] = bool(abs(float(prec) - 2.0 ** float(nexp) / 254.) <=
                          1e-6 * 2.0 ** float(nexp))
     u = unpack(np.asarray(cvar).view('uint8').reshape(arr.shape),
                np.array(var1), np.array(nexp))
-    tr['unp'] = [[back(x) for x in row] for row in np.asarray(u)]
+    tr['unp2'] = [[back(x) for x in row] for row in np.asarray(u)]
     tr['exact'] = bool(exact)
     return tr
 
@@ -121,7 +122,7 @@ def run(tier):
                        'non-trivial = not constant; distinct = different '
                        'field or scale')
     for t in traces[:2] + traces[-1:]:
-        out.sample({k: t[k] for k in ('f', 's', 'bytes', 'nexp', 'unp',
+        out.sample({k: t[k] for k in ('f', 's', 'bytes', 'nexp', 'unp2',
                                       'ksum')})
     verdicts = validate_traces('ArlPack_Trace', traces, out, shard=2500)
     settle(out, traces, verdicts, None)
